@@ -712,4 +712,349 @@ theorem add_remove_spec {s : State} (hI : Inv s) {vid : Nat} {v : Vec} {names : 
       show some ((a0.addCols names.length).keepCols (List.range a0.ncols)) = some a0.asFloat
       rw [Arr.keepCols_addCols (hI.wf a0 (List.mem_of_getElem? ha))]
 
+/-! ### value-level laws: what field arithmetic, assignment and column add/remove store -/
+
+theorem Arr.mapCol_col_other (a : Arr) {j j' : Nat} (f : Rat → Rat) (h : j' ≠ j) :
+    (a.mapCol j f).col j' = a.col j' := by
+  unfold Arr.mapCol Arr.col
+  simp only [List.map_map]
+  apply List.map_congr_left
+  intro r _
+  simp only [Function.comp, List.getD_eq_getElem?_getD]
+  rw [List.getElem?_set_ne (Ne.symm h)]
+
+theorem Arr.mapCol_col_same {a : Arr} (hwf : a.WF) {j : Nat} (hj : j < a.ncols) (f : Rat → Rat) :
+    (a.mapCol j f).col j = (a.col j).map fun x => castTo a.isInt (f x) := by
+  unfold Arr.mapCol Arr.col
+  simp only [List.map_map]
+  apply List.map_congr_left
+  intro r hr
+  have : j < r.length := by rw [hwf.rect r hr]; exact hj
+  simp [Function.comp, List.getD_eq_getElem?_getD, this]
+
+theorem setColRows_other (j j' : Nat) (h : j' ≠ j) : ∀ (rows : List (List Rat)) (xs : List Rat),
+    (setColRows j rows xs).map (·.getD j' 0) = rows.map (·.getD j' 0) := by
+  intro rows
+  induction rows with
+  | nil => intro xs; rfl
+  | cons r rs ih =>
+    intro xs
+    cases xs with
+    | nil => rfl
+    | cons x xs =>
+      show (r.set j x).getD j' 0 :: (setColRows j rs xs).map (·.getD j' 0) = r.getD j' 0 :: rs.map (·.getD j' 0)
+      rw [ih xs]
+      simp [List.getD_eq_getElem?_getD, List.getElem?_set_ne (Ne.symm h)]
+
+theorem Arr.setCol_col_other (a : Arr) {j j' : Nat} (xs : List Rat) (h : j' ≠ j) :
+    (a.setCol j xs).col j' = a.col j' :=
+  setColRows_other j j' h a.rows _
+
+/-- `_apply_op` on a vector without aliased cells: every populated cell's array becomes
+`mapCol j f` of what it was -/
+theorem applyOp_get (j : Nat) (f : Rat → Rat) : ∀ (cells : List (Option Ref)) (heap : List Arr),
+    (refsOf cells).Nodup → ∀ r, some r ∈ cells →
+      (applyOp j f heap cells)[r]? = (heap[r]?).map (·.mapCol j f) := by
+  intro cells
+  induction cells with
+  | nil => intro heap _ r hr; cases hr
+  | cons c cs ih =>
+    intro heap hnd r hr
+    cases c with
+    | none =>
+      have hnd' : (refsOf cs).Nodup := by simpa [refsOf] using hnd
+      have hr' : some r ∈ cs := by simpa using hr
+      simpa [applyOp] using ih heap hnd' r hr'
+    | some r0 =>
+      have hnd2 : r0 ∉ refsOf cs ∧ (refsOf cs).Nodup := by simpa [refsOf, List.nodup_cons] using hnd
+      have hnotin : some r0 ∉ cs := fun h => hnd2.1 (mem_refsOf.mpr h)
+      simp only [applyOp]
+      cases ha : heap[r0]? with
+      | none =>
+        simp only []
+        rcases List.mem_cons.mp hr with h1 | h1
+        · cases h1
+          rw [applyOp_frame j f r cs heap hnotin, ha]; rfl
+        · exact ih heap hnd2.2 r h1
+      | some a =>
+        simp only []
+        have hlt := getElem?_lt ha
+        rcases List.mem_cons.mp hr with h1 | h1
+        · cases h1
+          rw [applyOp_frame j f r cs _ hnotin, ha]
+          simp [List.getElem?_set_self hlt]
+        · have hne : r0 ≠ r := by intro e; subst e; exact hnotin h1
+          rw [ih _ hnd2.2 r h1, List.getElem?_set_ne hne]
+
+/-- the assignment loop on distinct target positions: cell `ps[k]` ends up holding the k-th
+value, every cell that is not a target keeps what it held -/
+theorem setCells_spec_values (heap : List Arr) (nf : Nat) : ∀ (ps : List Nat) (xs : List Val) (cells : List (Option Ref)),
+    (setCells heap nf cells ps xs).2 = none → xs.length = ps.length → (∀ p ∈ ps, p < cells.length) →
+    (∀ p, p ∉ ps → (setCells heap nf cells ps xs).1[p]? = cells[p]?) ∧
+    (ps.Nodup → ∀ (k p : Nat), ps[k]? = some p → ∃ x r, xs[k]? = some x ∧ checkVal heap nf x = .ok r ∧
+        (setCells heap nf cells ps xs).1[p]? = some (some r)) := by
+  intro ps
+  induction ps with
+  | nil =>
+    intro xs cells _ _ _
+    exact ⟨fun p _ => by simp [setCells], fun _ k p hk => by simp at hk⟩
+  | cons p0 ps ih =>
+    intro xs cells hok hlen hlt
+    cases xs with
+    | nil => simp at hlen
+    | cons x xs =>
+      simp only [setCells] at hok ⊢
+      cases hc : checkVal heap nf x with
+      | error e => rw [hc] at hok; simp at hok
+      | ok r0 =>
+        rw [hc] at hok
+        simp only [] at hok ⊢
+        have hlen' : xs.length = ps.length := by simpa using hlen
+        have hlt' : ∀ p ∈ ps, p < (cells.set p0 (some r0)).length := by
+          intro p hp; simpa using hlt p (List.mem_cons_of_mem _ hp)
+        obtain ⟨i1, i2⟩ := ih xs (cells.set p0 (some r0)) hok hlen' hlt'
+        constructor
+        · intro p hp
+          have hp0 : p0 ≠ p := fun e => hp (e ▸ List.mem_cons_self)
+          have hps : p ∉ ps := fun h => hp (List.mem_cons_of_mem _ h)
+          rw [i1 p hps, List.getElem?_set_ne hp0]
+        · intro hnd k p hk
+          have hnd2 := List.nodup_cons.mp hnd
+          cases k with
+          | zero =>
+            simp at hk; subst hk
+            refine ⟨x, r0, by simp, hc, ?_⟩
+            rw [i1 p0 hnd2.1]
+            have : p0 < cells.length := hlt p0 List.mem_cons_self
+            simp [List.getElem?_set_self this]
+          | succ k =>
+            simp at hk
+            obtain ⟨x', r', h1, h2, h3⟩ := i2 hnd2.2 k p hk
+            exact ⟨x', r', by simpa using h1, h2, h3⟩
+
+theorem Arr.addCols_col_old {a : Arr} (hwf : a.WF) (k : Nat) {j : Nat} (hj : j < a.ncols) :
+    (a.addCols k).col j = a.col j := by
+  unfold Arr.addCols Arr.col
+  simp only [List.map_map]
+  apply List.map_congr_left
+  intro r hr
+  have : j < r.length := by rw [hwf.rect r hr]; exact hj
+  simp [Function.comp, List.getD_eq_getElem?_getD, List.getElem?_append_left this]
+
+theorem Arr.addCols_col_new {a : Arr} (hwf : a.WF) (k : Nat) {j : Nat} (h1 : a.ncols ≤ j) (h2 : j < a.ncols + k) :
+    (a.addCols k).col j = List.replicate a.nrows 0 := by
+  unfold Arr.addCols Arr.col Arr.nrows
+  simp only [List.map_map]
+  rw [List.eq_replicate_iff]
+  refine ⟨by simp, ?_⟩
+  intro x hx
+  simp only [List.mem_map, Function.comp] at hx
+  obtain ⟨r, hr, rfl⟩ := hx
+  have hl : r.length = a.ncols := hwf.rect r hr
+  have hk : j - r.length < k := by rw [hl]; omega
+  rw [List.getD_eq_getElem?_getD, List.getElem?_append_right (by omega)]
+  simp [List.getElem?_replicate, hk]
+
+theorem Arr.keepCols_col (a : Arr) (keep : List Nat) {i : Nat} (hi : i < keep.length) :
+    (a.keepCols keep).col i = a.col keep[i] := by
+  unfold Arr.keepCols Arr.col
+  simp only [List.map_map]
+  apply List.map_congr_left
+  intro r _
+  simp [Function.comp, List.getD_eq_getElem?_getD, hi]
+
+theorem wrapAll_lt (d : Nat) : ∀ (is : List Int) (ps : List Nat), wrapAll d is = .ok ps → ∀ p ∈ ps, p < d := by
+  intro is
+  induction is with
+  | nil => intro ps h p hp; simp [wrapAll] at h; subst h; cases hp
+  | cons i is ih =>
+    intro ps h p hp
+    simp only [wrapAll] at h
+    split at h
+    · cases h
+    · rename_i p0 hp0
+      split at h
+      · cases h
+      · rename_i ps' hps
+        cases h
+        rcases List.mem_cons.mp hp with rfl | hp
+        · exact pyIndex_lt hp0
+        · exact ih ps' hps p hp
+
+/-- every addressed position is a valid row-major offset -/
+theorem positions_lt : ∀ (shape : List Nat) (ls : List (List Int)) (ps : List Nat),
+    positions shape ls = .ok ps → ∀ p ∈ ps, p < prod shape := by
+  intro shape
+  induction shape with
+  | nil => intro ls ps h p hp; simp [positions] at h; subst h; simp at hp; subst hp; simp [prod]
+  | cons d ds ih =>
+    intro ls ps h p hp
+    cases ls with
+    | nil => simp [positions] at h
+    | cons is iss =>
+      simp only [positions] at h
+      split at h
+      · cases h
+      · cases h; cases hp
+      · rename_i o os hw
+        split at h
+        · cases h
+        · rename_i sub hsub
+          cases h
+          simp only [List.mem_flatMap, List.mem_map] at hp
+          obtain ⟨i, hi, q, hq, rfl⟩ := hp
+          have h1 := wrapAll_lt d is _ hw i hi
+          have h2 := ih iss sub hsub q hq
+          simp only [prod]
+          calc i * prod ds + q < i * prod ds + prod ds := Nat.add_lt_add_left h2 _
+            _ = (i + 1) * prod ds := by rw [Nat.succ_mul]
+            _ ≤ d * prod ds := Nat.mul_le_mul_right _ h1
+
+theorem checkVal_ref {heap : List Arr} {nf : Nat} {x : Val} {r : Ref} (h : checkVal heap nf x = .ok r) :
+    x = .ref r := by
+  unfold checkVal at h
+  split at h
+  · split at h
+    · split at h
+      · cases h; rfl
+      · cases h
+    · cases h
+  · cases h
+  · cases h
+  · cases h
+
+/-! ### general operands of field arithmetic -/
+
+theorem applyGen_frame (j : Nat) (g : Rat → Rat → Rat) (neg : Bool) (rhs : RhsR) (r0 : Nat) :
+    ∀ (cells : List (Option Ref)) (heap : List Arr),
+      some r0 ∉ cells → (applyGen j g neg rhs heap cells).1[r0]? = heap[r0]? := by
+  intro cells
+  induction cells with
+  | nil => intro heap _; rfl
+  | cons c cs ih =>
+    intro heap hn
+    have hn' : some r0 ∉ cs := fun h => hn (List.mem_cons_of_mem _ h)
+    cases c with
+    | none => simpa [applyGen] using ih heap hn'
+    | some r =>
+      have hne : r ≠ r0 := by
+        intro e; subst e; exact hn List.mem_cons_self
+      simp only [applyGen]
+      split
+      · exact ih heap hn'
+      · split
+        · rfl
+        · split
+          · rfl
+          · rw [ih _ hn', List.getElem?_set_ne hne]
+
+/-- the operand values a static (scalar / 1-D ndarray) right operand contributes to a column of
+`n` entries, after NumPy broadcasting -/
+def RhsR.vals (n : Nat) : RhsR → Option (List Rat)
+  | .scalar c => some (List.replicate n c)
+  | .array ys => broadcastTo n ys
+  | .field _ _ => none
+
+def RhsR.isStatic : RhsR → Bool
+  | .field _ _ => false
+  | _ => true
+
+/-- general field arithmetic with a scalar or ndarray operand on a vector without aliased cells:
+if the loop ran to the end, every populated cell's column `j` became `g` of its entries and the
+broadcast operand (cast to the cell's dtype), all else unchanged -/
+theorem applyGen_get (j : Nat) (g : Rat → Rat → Rat) (neg : Bool) (rhs : RhsR) (hs : rhs.isStatic = true) :
+    ∀ (cells : List (Option Ref)) (heap : List Arr),
+      (refsOf cells).Nodup → (applyGen j g neg rhs heap cells).2 = none →
+      ∀ r a, some r ∈ cells → heap[r]? = some a →
+        ∃ ys, rhs.vals a.nrows = some ys ∧
+          (applyGen j g neg rhs heap cells).1[r]? = some (a.setCol j (List.zipWith g (a.col j) ys)) := by
+  intro cells
+  induction cells with
+  | nil => intro heap _ _ r a hr; cases hr
+  | cons c cs ih =>
+    intro heap hnd hok r a hr ha
+    cases c with
+    | none =>
+      have hnd' : (refsOf cs).Nodup := by simpa [refsOf] using hnd
+      have hr' : some r ∈ cs := by simpa using hr
+      simp only [applyGen] at hok ⊢
+      exact ih heap hnd' hok r a hr' ha
+    | some r0 =>
+      have hnd2 : r0 ∉ refsOf cs ∧ (refsOf cs).Nodup := by simpa [refsOf, List.nodup_cons] using hnd
+      have hnotin : some r0 ∉ cs := fun h => hnd2.1 (mem_refsOf.mpr h)
+      simp only [applyGen] at hok ⊢
+      cases ha0 : heap[r0]? with
+      | none =>
+        rw [ha0] at hok
+        simp only [] at hok ⊢
+        rcases List.mem_cons.mp hr with h1 | h1
+        · cases h1; rw [ha0] at ha; cases ha
+        · exact ih heap hnd2.2 hok r a h1 ha
+      | some a0 =>
+        rw [ha0] at hok
+        simp only [] at hok ⊢
+        split at hok
+        · simp at hok
+        · rename_i hneg
+          rw [if_neg hneg]
+          have hval : rhs.eval heap a0.nrows = rhs.vals a0.nrows := by
+            cases rhs with
+            | scalar c => rfl
+            | array ys => rfl
+            | field _ _ => simp [RhsR.isStatic] at hs
+          rw [hval] at hok ⊢
+          cases hv : rhs.vals a0.nrows with
+          | none => rw [hv] at hok; simp at hok
+          | some ys =>
+            rw [hv] at hok
+            simp only [] at hok ⊢
+            have hlt := getElem?_lt ha0
+            rcases List.mem_cons.mp hr with h1 | h1
+            · cases h1
+              rw [ha0] at ha; cases ha
+              refine ⟨ys, hv, ?_⟩
+              rw [applyGen_frame j g neg rhs r cs _ hnotin]
+              simp [List.getElem?_set_self hlt]
+            · have hne : r0 ≠ r := by intro e; subst e; exact hnotin h1
+              exact ih _ hnd2.2 hok r a h1 (by rw [List.getElem?_set_ne hne]; exact ha)
+
+/-! ### columns after add_fields / remove_fields -/
+
+/-- a cell before / after `add_fields` of `k` names: a new array with the same rows, the old
+columns unchanged and `k` zero columns appended -/
+def AddedCols (k : Nat) (heap heap1 : List Arr) (c c1 : Option Ref) : Prop :=
+  match c with
+  | none => c1 = none
+  | some r => ∃ (r1 : Nat) (a a1 : Arr), c1 = some r1 ∧ heap[r]? = some a ∧ heap1[r1]? = some a1 ∧
+      a1.nrows = a.nrows ∧ a1.ncols = a.ncols + k ∧ (∀ j, j < a.ncols → a1.col j = a.col j) ∧
+      (∀ j, a.ncols ≤ j → j < a.ncols + k → a1.col j = List.replicate a.nrows 0)
+
+/-- a cell before / after `remove_fields`: a new array of the same dtype whose i-th column is the
+old column number `keep[i]` -/
+def KeptCols (keep : List Nat) (heap heap2 : List Arr) (c c2 : Option Ref) : Prop :=
+  match c with
+  | none => c2 = none
+  | some r => ∃ (r2 : Nat) (a a2 : Arr), c2 = some r2 ∧ heap[r]? = some a ∧ heap2[r2]? = some a2 ∧
+      a2.nrows = a.nrows ∧ a2.ncols = keep.length ∧ a2.isInt = a.isInt ∧
+      ∀ (i : Nat) (hi : i < keep.length), a2.col i = a.col keep[i]
+
+/-- the columns `remove_fields names` keeps are exactly those whose field name is not in `names` -/
+theorem keep_mem_iff (fields names : List String) (hnd : fields.Nodup) (i : Nat) :
+    i ∈ (List.range fields.length).filter
+        (fun i => !((names.filter (fields.contains ·)).map (fields.idxOf ·)).contains i) ↔
+      ∃ h : i < fields.length, fields[i] ∉ names := by
+  simp only [List.mem_filter, List.mem_range, Bool.not_eq_true', List.contains_eq_mem, decide_eq_false_iff_not,
+    List.mem_map, List.mem_filter, decide_eq_true_eq]
+  constructor
+  · rintro ⟨hlt, hno⟩
+    refine ⟨hlt, ?_⟩
+    intro hin
+    exact hno ⟨fields[i], ⟨hin, List.getElem_mem hlt⟩, hnd.idxOf_getElem i hlt⟩
+  · rintro ⟨hlt, hno⟩
+    refine ⟨hlt, ?_⟩
+    rintro ⟨n, ⟨hn, hnf⟩, rfl⟩
+    apply hno
+    rw [List.getElem_idxOf]
+    exact hn
+
 end QuantemModel.Vector
